@@ -253,6 +253,19 @@ Fixpoint fend (f : list pevent) : tend := match f with PW _ :: f' => fend f' | P
 
 Definition prefix (a b : bytes) : Prop := exists r, b = a ++ r.
 
+Lemma clamp_ge4 : forall n, (4 <= clamp_nn n <= 1024)%nat.
+Proof.
+  intros n. unfold clamp_nn. destruct (Nat.ltb (n / 3 * 4) 4) eqn:A; [lia|].
+  destruct (Nat.ltb 1024 (n / 3 * 4)) eqn:B; [lia|]. apply Nat.ltb_ge in A, B. lia.
+Qed.
+
+Lemma div4 : forall n, exists k, (n / 4 * 4 = 4 * k)%nat /\ (n / 4 * 4 <= n)%nat /\ (n - n / 4 * 4 < 4)%nat /\ (n / 4 * 4 / 4 * 3 = 3 * k)%nat.
+Proof.
+  intros n. exists (n / 4)%nat. pose proof (Nat.div_mod n 4 ltac:(lia)). pose proof (Nat.mod_upper_bound n 4 ltac:(lia)).
+  rewrite Nat.div_mul by lia. lia.
+Qed.
+
+
 Section StreamProofs.
   Variable T : Type.
   Variable tinit : T.
@@ -481,18 +494,6 @@ Section StreamProofs.
   Definition rem (d : dec) : bytes := c_nbuf (d_c d) ++ chars (future (d_p d)).
   Definition pend (d : dec) : tend := fend (future (d_p d)).
   Definition meas (d : dec) : nat := (List.length (c_out (d_c d)) + List.length (rem d))%nat.
-
-  Lemma clamp_ge4 : forall n, (4 <= clamp_nn n <= 1024)%nat.
-  Proof.
-    intros n. unfold clamp_nn. destruct (Nat.ltb (n / 3 * 4) 4) eqn:A; [lia|].
-    destruct (Nat.ltb 1024 (n / 3 * 4)) eqn:B; [lia|]. apply Nat.ltb_ge in A, B. lia.
-  Qed.
-
-  Lemma div4 : forall n, exists k, (n / 4 * 4 = 4 * k)%nat /\ (n / 4 * 4 <= n)%nat /\ (n - n / 4 * 4 < 4)%nat /\ (n / 4 * 4 / 4 * 3 = 3 * k)%nat.
-  Proof.
-    intros n. exists (n / 4)%nat. pose proof (Nat.div_mod n 4 ltac:(lia)). pose proof (Nat.mod_upper_bound n 4 ltac:(lia)).
-    rewrite Nat.div_mul by lia. lia.
-  Qed.
 
   (* one Read *)
   Lemma dec_read0_spec : forall n d, cinv d -> (1 <= n)%nat -> no_ipad (rem d) = true ->
